@@ -287,7 +287,9 @@ fn run_parallel(nthreads: usize, total: u64, deadline: Instant, timed_out: &Arc<
 }
 
 fn main() {
-    std::panic::set_hook(Box::new(|_| {}));
+    if std::env::var("PPGMON_PANIC").is_err() {
+        std::panic::set_hook(Box::new(|_| {}));
+    }
     let args: Vec<String> = std::env::args().collect();
     let cmd = args.get(1).map(|s| s.as_str()).unwrap_or("");
     match cmd {
